@@ -162,6 +162,127 @@ example : trackedInit parseDate ["2025-06-18", "2025-03-26"] none (.version "202
     ∧ (trackedInit parseDate ["2025-06-18", "2025-03-26"] none (.version "2025-06-18")).2.2 = some ("2025-06-18", false)
     ∧ parseDate "2025-03-26" = some (2025, 3, 26) := by decide
 
+/-! ## Write side with backpressure (`clientInitW`: the notification's send is a rendezvous)
+
+"On success exactly one initialized notification is sent … before the call returns" must
+hold however slowly the write side takes the notification: the code awaits the send with no
+bound of its own, so a return is always preceded by the hand-over. -/
+
+/-- Success implies the notification was handed over, exactly once, as the last thing before
+the return: for every write side, if the call returns a result the write side did take the
+notification and the transcript is request, answer, start of the send, hand-over. -/
+theorem c03_success_implies_handed (sup : List String) (pref : Option String) (ans : Answer)
+    (ws : WriteSide) (v : String) (t : List Ev) (h : clientInitW sup pref ans ws = (.ok v, t)) :
+    ∃ p d, ws = .accepts d ∧ proposed sup pref = some p
+      ∧ t = [.sent (.initialize p), .answered, .sent .initialized, .handed]
+      ∧ (t.filter (· = .handed)).length = 1 := by
+  unfold clientInitW at h
+  split at h
+  · rename_i v' t' hc
+    obtain ⟨p, hp, ht, _⟩ := c03_initialized_exactly_once_on_success sup pref ans v' t' hc
+    cases ws with
+    | never => simp at h
+    | accepts d =>
+      simp only [Prod.mk.injEq, Outcome.ok.injEq] at h
+      refine ⟨p, d, rfl, hp, ?_, ?_⟩
+      · rw [← h.2, ht]; rfl
+      · rw [← h.2, ht]; simp
+  · rename_i r hno
+    exact absurd (by rw [h]) (hno v t)
+
+/-- A write side that never takes the notification never yields a success: the call is still
+pending (or failed earlier); nothing was handed over. -/
+theorem c03_stalled_writer_never_success (sup : List String) (pref : Option String) (ans : Answer) :
+    (∀ v, (clientInitW sup pref ans .never).1 ≠ .ok v)
+    ∧ Ev.handed ∉ (clientInitW sup pref ans .never).2 := by
+  constructor
+  · intro v hv
+    have : clientInitW sup pref ans .never = (.ok v, (clientInitW sup pref ans .never).2) := by
+      rw [← hv]
+    obtain ⟨_, _, hw, _⟩ := c03_success_implies_handed _ _ _ _ _ _ this
+    cases hw
+  · unfold clientInitW
+    split
+    · rename_i v t hc
+      obtain ⟨p, _, ht, _⟩ := c03_initialized_exactly_once_on_success sup pref ans v t hc
+      simp [ht]
+    · rename_i r hno
+      cases hp : proposed sup pref with
+      | none => simp [clientInit, hp]
+      | some p =>
+        rcases clientInit_cases sup pref ans p hp with ⟨v', _, _, he⟩ | ⟨_, _, ht | ⟨_, ht⟩⟩
+        · exact absurd he (hno v' _)
+        · rw [ht]; simp
+        · rw [ht]; simp
+
+/-- Whatever the write side does, a hand-over happens only in a successful run; and with a write
+side that does take the notification the run is the one of `clientInit` plus the hand-over. -/
+theorem c03_handed_only_on_success (sup : List String) (pref : Option String) (ans : Answer)
+    (ws : WriteSide) :
+    (Ev.handed ∈ (clientInitW sup pref ans ws).2 → ∃ v, (clientInitW sup pref ans ws).1 = .ok v)
+    ∧ (∀ d, ws = .accepts d → (clientInitW sup pref ans ws).1 = (clientInit sup pref ans).1
+        ∧ (clientInitW sup pref ans ws).2.filter (· ≠ .handed) = (clientInit sup pref ans).2) := by
+  have hclean : Ev.handed ∉ (clientInit sup pref ans).2 := by
+    cases hp : proposed sup pref with
+    | none => simp [clientInit, hp]
+    | some p =>
+      rcases clientInit_cases sup pref ans p hp with ⟨v', _, _, he⟩ | ⟨_, _, ht | ⟨_, ht⟩⟩
+      · rw [he]; simp
+      · rw [ht]; simp
+      · rw [ht]; simp
+  constructor
+  · intro hm
+    unfold clientInitW at hm ⊢
+    split at hm
+    · rename_i v t hc
+      cases ws with
+      | accepts d => exact ⟨v, by simp⟩
+      | never =>
+        have : t = (clientInit sup pref ans).2 := by rw [hc]
+        exact absurd (this ▸ hm) hclean
+    · exact absurd hm hclean
+  · intro d hd
+    subst hd
+    unfold clientInitW
+    split
+    · rename_i v t hc
+      have ht : Ev.handed ∉ t := by
+        have : t = (clientInit sup pref ans).2 := by rw [hc]
+        exact this ▸ hclean
+      refine ⟨by rw [hc], ?_⟩
+      rw [hc]
+      simp only [List.filter_append]
+      have : t.filter (· ≠ .handed) = t := by
+        apply List.filter_eq_self.2
+        intro a ha
+        simp only [ne_eq, decide_not, Bool.not_eq_eq_eq_not, Bool.not_true, decide_eq_false_iff_not]
+        intro e
+        exact ht (e ▸ ha)
+      rw [this]
+      simp
+    · exact ⟨rfl, List.filter_eq_self.2 (by
+        intro a ha
+        simp only [ne_eq, decide_not, Bool.not_eq_eq_eq_not, Bool.not_true, decide_eq_false_iff_not]
+        intro e
+        exact hclean (e ▸ ha))⟩
+
+example : clientInitW ["2025-06-18", "2024-11-05"] none (.version "2024-11-05") (.accepts 2048)
+      = (.ok "2024-11-05", [.sent (.initialize "2025-06-18"), .answered, .sent .initialized, .handed])
+    ∧ clientInitW ["2025-06-18", "2024-11-05"] none (.version "2024-11-05") .never
+      = (.blocked, [.sent (.initialize "2025-06-18"), .answered, .sent .initialized])
+    ∧ clientInitW ["2025-06-18"] none (.version "2024-11-05") .never
+      = (.mismatch, [.sent (.initialize "2025-06-18"), .answered]) := by decide
+
+/-- Counter-model: with the send wrapped in `move_on_after T` (NOT the code) the statement fails —
+a write side slower than `T` gives a success although nothing was handed over. -/
+example : clientInitMoveOn 1024 true ["2025-06-18"] none (.version "2025-06-18") (.accepts 1025)
+      = (.ok "2025-06-18", [.sent (.initialize "2025-06-18"), .answered, .sent .initialized])
+    ∧ clientInitMoveOn 1024 false ["2025-06-18"] none (.version "2025-06-18") (.accepts 1024)
+      = (.ok "2025-06-18", [.sent (.initialize "2025-06-18"), .answered, .sent .initialized])
+    ∧ (clientInitMoveOn 1024 true ["2025-06-18"] none (.version "2025-06-18") .never).1 = .ok "2025-06-18"
+    ∧ clientInitMoveOn 1024 true ["2025-06-18"] none (.version "2025-06-18") (.accepts 1023)
+      = clientInitW ["2025-06-18"] none (.version "2025-06-18") (.accepts 1023) := by decide
+
 /-- Instance: when the caller passes no list the client offers the library's own list
 (regenerated); it is non-empty and contains no empty string, so every theorem above applies,
 and the proposal is its first entry unless a listed version is preferred. -/
